@@ -679,7 +679,6 @@ Section Congruence.
               | DictOf kk =>
                 match r with
                 | JObj members => do l' <- mapM (dict_entry (pk f) kk (f_kind fl)) members; Ok (MDict l')
-                | JStr [] | JArr [] => Ok (MDict [])
                 | _ => reject
                 end
               end).
@@ -693,7 +692,6 @@ Section Congruence.
       + destruct kk as [| |a b c d| | | | | | | |]; try discriminate Hd.
         destruct (f_kind fl) as [| | |a2 b2 c2 d2| | | | | | |] eqn:Ek; try discriminate Hd.
         destruct H as [|bb|z|m e|s|l l' Hl|ms mid ms' Hnd Hm Hp]; try (apply orel_eq; reflexivity).
-        * destruct Hl as [|x y l l' _ _]; apply orel_eq; reflexivity.
         * destruct (dict_jperm f _ _ ms mid ms' a b c d a2 b2 c2 d2 eq_refl eq_refl Hm Hp) as [u w Huw|e];
             cbn [bind]; constructor.
           apply (MP_dict u u w); [apply mrel_refl_list|exact Huw].
